@@ -13,8 +13,8 @@ EXPLANATION = ("order-taint analysis over the MIR of all workspace crates: every
                "does not decide byte-identity of outputs")
 
 AMBIENT = ("std::time::SystemTime::now", "std::time::Instant::now", "std::env::var", "std::env::vars", "std::env::var_os",
-           "std::process::id", "std::thread::current", "std::thread::spawn", "rand::", "getrandom::", "std::collections::hash_map::RandomState::new",
-           "std::hash::RandomState::new", "std::env::temp_dir", "std::env::current_dir")
+           "std::process::id", "std::thread::current", "std::thread::spawn", "std::thread::Builder", "rand::", "getrandom::",
+           "std::hash::random::RandomState::new", "std::env::temp_dir", "std::env::current_dir", "std::sys::", "std::time::")
 PIPELINE_CRATES = ("wac_types", "wac_graph", "wac_parser")
 
 
